@@ -2281,6 +2281,12 @@ class Attribute(object):
         bit = obj._bits_except_volatile_[attr]
         wbits = obj._wbits_
         if wbits is not None and not wbits & bit: obj._rbits_ |= bit
+        if value is not None and attr.reverse and not attr.columns:
+            # one-to-one link stored in the column of the reverse attribute: record the read there (as Set does for its items)
+            reverse = attr.reverse
+            bit = value._bits_except_volatile_[reverse]
+            wbits = value._wbits_
+            if wbits is not None and not wbits & bit: value._rbits_ |= bit
         return value
     def get(attr, obj):
         if attr.pk_offset is None and obj._status_ in ('deleted', 'cancelled'):
